@@ -205,15 +205,15 @@ func (c *Ctx) NumViolations() int {
 
 // Delta is the serialisable content of a Ctx (used between child and parent processes).
 type Delta struct {
-	Evals        int64             `json:"evals"`
-	Distinct     []uint64          `json:"distinct"`
-	DistinctAdd  int64             `json:"distinct_add"`
-	Samples      []any             `json:"samples"`
-	Counters     map[string]int64  `json:"counters"`
-	MaxCounters  []string          `json:"max_counters,omitempty"`
-	Notes        map[string]any    `json:"notes"`
-	Violations   []*Violation      `json:"violations"`
-	Inconclusive []string          `json:"inconclusive"`
+	Evals        int64            `json:"evals"`
+	Distinct     []uint64         `json:"distinct"`
+	DistinctAdd  int64            `json:"distinct_add"`
+	Samples      []any            `json:"samples"`
+	Counters     map[string]int64 `json:"counters"`
+	MaxCounters  []string         `json:"max_counters,omitempty"`
+	Notes        map[string]any   `json:"notes"`
+	Violations   []*Violation     `json:"violations"`
+	Inconclusive []string         `json:"inconclusive"`
 }
 
 // Export serialises the context.
